@@ -5,6 +5,7 @@ import (
 	"errors"
 	"fmt"
 	"io"
+	"os"
 	"reflect"
 	"strings"
 
@@ -202,6 +203,10 @@ func (f *faultReaderAt) ReadAt(p []byte, off int64) (int, error) {
 	return n, err
 }
 
+// c14FileOpts is the file option profile of the case (set by runC14): nil reads through
+// parquet.Read[T]; otherwise OpenFile with the options, then a typed reader.
+var c14FileOpts []parquet.FileOption
+
 func c14ReadAll(te *typeEntry, r io.ReaderAt, size int64) (rows reflect.Value, err error) {
 	defer func() {
 		if p := recover(); p != nil {
@@ -209,7 +214,46 @@ func c14ReadAll(te *typeEntry, r io.ReaderAt, size int64) (rows reflect.Value, e
 			panic(p)
 		}
 	}()
-	return te.ops.ReadAll(r, size)
+	if c14FileOpts == nil {
+		return te.ops.ReadAll(r, size)
+	}
+	f, err := parquet.OpenFile(r, size, c14FileOpts...)
+	if err != nil {
+		return reflect.Value{}, err
+	}
+	gr := te.ops.NewReader(f)
+	defer gr.Close()
+	out := te.ops.NewRows(0)
+	batch := te.ops.NewRows(64)
+	for {
+		n, err := te.ops.Read(gr, batch)
+		if os.Getenv("VERIF_DEBUG") != "" {
+			fmt.Fprintf(os.Stderr, "c14ReadAll: Read -> %d, %v (NumRows %d)\n", n, err, gr.NumRows())
+		}
+		for i := 0; i < n; i++ {
+			out = reflect.Append(out, deepCopy(batch.Index(i)))
+		}
+		if err != nil {
+			if errors.Is(err, io.EOF) {
+				break
+			}
+			return out, err
+		}
+		if n == 0 {
+			return out, fmt.Errorf("Read made no progress")
+		}
+	}
+	// the bloom filters are part of what a full read of the file touches
+	for _, rg := range f.RowGroups() {
+		for _, cc := range rg.ColumnChunks() {
+			if bf := cc.BloomFilter(); bf != nil {
+				if _, err := bf.Check(parquet.Int64Value(1)); err != nil {
+					return out, err
+				}
+			}
+		}
+	}
+	return out, nil
 }
 
 func runC14(c *Ctx) {
@@ -224,6 +268,23 @@ func runC14(c *Ctx) {
 	}
 	rows := genRows(r, te, n, genOpts{NoHuge: true, SmallLists: true})
 	seed := r.U64()
+	c14FileOpts = nil
+	switch prof := (c.Case / 7) % 4; prof {
+	case 1:
+		c14FileOpts = []parquet.FileOption{parquet.OptimisticRead(true)}
+		c.D("file_options", "optimistic")
+		c.Obs("read_profile_optimistic", 1)
+	case 2:
+		c14FileOpts = []parquet.FileOption{parquet.OptimisticRead(true), parquet.PrefetchBloomFilters(true), parquet.ReadBufferSize(64)}
+		c.D("file_options", "optimistic+prefetch_bloom+rbuf64")
+		c.Obs("read_profile_optimistic_prefetch", 1)
+	case 3:
+		c14FileOpts = []parquet.FileOption{parquet.SkipPageIndex(true), parquet.SkipBloomFilters(true), parquet.FileReadMode(parquet.ReadModeAsync)}
+		c.D("file_options", "skipindex+skipbloom+async")
+		c.Obs("read_profile_lazy_async", 1)
+	default:
+		c.Obs("read_profile_default", 1)
+	}
 	c.D("scenario", scenario)
 	c.D("family", family)
 	c.D("rows", n)
